@@ -107,6 +107,14 @@ def run(ctx, spec):
     eq(cj, g)
     cj2 = pw(cj, pow(rm.q, 12 - kf, r), 'conjugate')
     eq(cj2, g)
+    # ... and every operation must treat them as the different elements they are (a shortcut keyed on one shared block would not)
+    m1 = mul(g, cj, 'conjugate')
+    m2 = mul(cj, g, 'conjugate')
+    eq(m1, m2)
+    eq(mul(m1, inv, 'conjugate'), cj)
+    kf2 = rng.choice([4, 8, 6, 2, rng.randrange(1, 12)])
+    cj3 = pw(g, pow(rm.q, kf2, r), 'conjugate')
+    mul(cj, cj3, 'conjugate')
     # derived operands: products / powers / inverses as inputs of further operations
     d1 = mul(l, inv, 'derived-operand')
     d2, i = pr.let('gt.inverse', d1)
